@@ -273,6 +273,33 @@ def run(facts, res):
                               "%s can leave its pack loop early and still return Ok: packs listed after a damaged one are never indexed, "
                               "so intact, causally complete commits silently disappear instead of an error being reported" % name, b.loc())
     res.floor("H6", "pack loading loops over storage listings", n6, 2)
+    # H6b: every listing is examined: the loops over a storage listing (packs in DataStorage, blocks in Melda) are entered
+    # whenever the listing is non-empty - no guard that compares the listing with what the replica already holds
+    n6b = 0
+    for name in ("datastorage::DataStorage::reload", "datastorage::DataStorage::refresh", "melda::Melda::reload",
+                 "melda::Melda::refresh", "melda::Melda::reload_until"):
+        b = facts.body(name)
+        if b is None:
+            continue
+        for fl in iters.find_flows(facts):
+            if fl.body is not b or fl.consumer != "next" or not fl.listing:
+                continue
+            n6b += 1
+            bad = []
+            for l in lits_of(b, fl.cons_block, facts):
+                if l.kind == "variant":
+                    continue            # `?` / match on a Result, a preceding loop's exit
+                if l.kind == "call":
+                    n_ = callee_name(l.term)
+                    if n_ in ("is_empty", "has_staging", "is_ok", "is_err", "is_some", "is_none"):
+                        continue
+                bad.append(repr(l))
+            res.instance("H6", "%s: the loop over the listing is entered whenever the listing is non-empty (other guards: %s)" % (name, bad or "none"), b.loc())
+            if bad:
+                res.violation("H6", "%s|listing-loop-guarded:%s" % (name, "cmp" if "cmp" in bad[0] else "other"),
+                              "%s examines the storage listing only under the condition %s: listed items can be skipped although they were never examined "
+                              "(e.g. the count of listed packs equals the count of applied packs after one was deleted and another arrived)" % (name, bad[0]), b.loc())
+    res.floor("H6", "loops over storage listings", n6b, 5)
 
     # ------------------------------------------------------------------ H5
     parsers = {}
